@@ -122,7 +122,11 @@ def evaluate(ctx, cases, cfgs):
     exes = L.build(ctx, cfgs, what=("layout",))
     cases = [c if len(c) == 5 else tuple(c) + ("u64",) for c in cases]
     mout = C.run_driver("driver", [L.model_line(lay, ct, sz, co) for (op, lay, sz, co, ct) in cases])
+    for tu, cfg, diag in L.SKIPPED:
+        corr.notes.append(f"configuration {cfg} left out: the auxiliary compiler rejects {tu} which g++ accepts ({diag[:160]})")
     for cfg in cfgs:
+        if ("layout", cfg) not in exes:
+            continue
         outs, _ = C.run_lines(exes[("layout", cfg)], [L.impl_line(op, lay, ct, sz, co) for (op, lay, sz, co, ct) in cases])
         outs = [(o.split()[1] if (c[0] == "idx" and len(o.split()) == 2 and o.split()[0] == "1") else
                  o.split()[0] if (c[0] == "convpos" and len(o.split()) == 2 and o.split()[1] == "1") else o) for c, o in zip(cases, outs)]
